@@ -522,6 +522,41 @@ static void phase_basis(Result &r, Shape const &sh)
   }
 }
 
+// DEGEN: a periodic dimension with exactly ONE bin (its Laplacian term vanishes: every node is its own neighbour).  The stencil
+// code addresses a first and a last row as if they were different; run in a forked child on vectors with spare capacity
+// behind their end, so that a write past the end lands in a canary instead of the heap.
+static void phase_degen(Result &r, Shape const &sh)
+{
+  std::vector<colvar *> cvs;
+  RGrid g = basis_grid(sh.nd, sh.nb, sh.per, sh.ws, cvs);
+  r.count("evaluations");
+  std::string key = "D:" + shape_key(sh);
+  r.seen("states", key); r.seen("nontrivial", key);
+  int rc = run_isolated([&]() {
+    Sut s;
+    build_sut(s, g, cvs, false, false);
+    const long spare = 4096;
+    std::vector<cvm::real> x(g.nnodes + spare, 0.0), LA(g.nnodes + spare, 7.25);
+    std::vector<double> A(g.nnodes, 0.0);
+    static const double AV[4] = {-1, 0.5, 2, 0};
+    for (long i = 0; i < g.nnodes; i++) A[i] = AV[(i * 5 + i / 4 + (i * i) % 7) % 4];
+    for (long n = 0; n < g.nnodes; n++) x[s.pmf->address(s.node_ix(n))] = A[n];
+    x.resize(g.nnodes); LA.resize(g.nnodes);   // capacity stays: the spare elements remain addressable
+    cvm::real *spare_la = LA.data() + g.nnodes;
+    for (long i = 0; i < spare; i++) spare_la[i] = 7.25;
+    s.pmf->atimes(x, LA);
+    for (long i = 0; i < spare; i++) if (spare_la[i] != 7.25) return 10;
+    std::vector<double> obs(g.nnodes), ref = ref_lap(g, A);
+    for (long n = 0; n < g.nnodes; n++) obs[n] = LA[s.pmf->address(s.node_ix(n))];
+    return first_diff(obs, ref) >= 0 ? 11 : 0;
+  }, 60.0);
+  r.count("transitions");
+  if (rc != 0)
+    r.violation("C16:one-bin-periodic-dimension:laplacian-wrong-or-written-outside-the-array",
+                "{\"grid\":" + g.str() + ",\"outcome\":\"" + (rc == 10 ? "atimes wrote past the end of its output array" : rc == 11 ? "atimes differs from the reference stencil" :
+                rc < 0 ? "child ended by signal " + std::to_string(-rc) : "exit code " + std::to_string(rc)) + "\"}");
+}
+
 // ------------------------------------------------------------------------------------------------
 // SOLVE
 // ------------------------------------------------------------------------------------------------
@@ -1119,7 +1154,7 @@ static void phase_abf(Result &r, AbfCfg const &c, int first_symbol, int maxlen, 
 // work list
 // ------------------------------------------------------------------------------------------------
 struct Item { int phase; Shape sh; int a, b, c, d; AbfCfg abf; double cost; };
-enum { P_CONV, P_SOLVE, P_BASIS, P_ARR, P_ONED, P_ABF };
+enum { P_CONV, P_SOLVE, P_BASIS, P_ARR, P_ONED, P_ABF, P_DEGEN };
 
 static std::vector<Item> make_items()
 {
@@ -1140,13 +1175,17 @@ static std::vector<Item> make_items()
     for (int ws = 0; ws < 2; ws++)
       for (int flags = 0; flags < (1 << nd); flags++) {
         int n[3];
-        for (n[0] = 2; n[0] <= nmax; n[0]++)
-          for (n[1] = 2; n[1] <= nmax; n[1]++)
-            for (n[2] = 2; n[2] <= (nd == 3 ? nmax : 2); n[2]++) {
+        // one bin (two nodes) is the smallest non-periodic dimension; a periodic dimension needs two bins (one bin is listed
+        // under the known findings: see the DEGEN phase)
+        for (n[0] = 1; n[0] <= nmax; n[0]++)
+          for (n[1] = 1; n[1] <= nmax; n[1]++)
+            for (n[2] = (nd == 3 ? 1 : 2); n[2] <= (nd == 3 ? nmax : 2); n[2]++) {
               Shape sh{};
               sh.nd = nd; sh.ws = ws;
-              for (int d = 0; d < 3; d++) { sh.nb[d] = d < nd ? n[d] : 1; sh.per[d] = d < nd ? (flags >> d) & 1 : false; }
-              shapes.push_back(sh);
+              bool degenerate = false;
+              for (int d = 0; d < 3; d++) { sh.nb[d] = d < nd ? n[d] : 1; sh.per[d] = d < nd ? (flags >> d) & 1 : false; if (d < nd && n[d] == 1 && sh.per[d]) degenerate = true; }
+              if (!degenerate) shapes.push_back(sh);
+              else if (want("DEGEN") && ws == 0 && n[0] <= 3 && n[1] <= 3 && n[2] <= 3) { Item it{}; it.phase = P_DEGEN; it.sh = sh; it.cost = 1e3; items.push_back(it); }
             }
       }
   for (Shape const &sh : shapes) {
@@ -1227,13 +1266,14 @@ static void worker(int shard, int nshards, Result &r, std::vector<Item> const &i
     switch (it.phase) {
     case P_CONV: phase_conv(tmp, it.a, it.b, it.c); break;
     case P_BASIS: phase_basis(tmp, it.sh); break;
+    case P_DEGEN: phase_degen(tmp, it.sh); break;
     case P_SOLVE: phase_solve(tmp, it.sh); break;
     case P_ARR: phase_arr(tmp, it.sh, it.a, it.b); break;
     case P_ONED: phase_oned(tmp, it.a, it.b, it.c, it.d); break;
     case P_ABF: mine_abf.push_back(&it); break;
     }
     {
-      static const char *pn[] = {"CONV", "SOLVE", "BASIS", "ARR", "ONED", "ABF"};
+      static const char *pn[] = {"CONV", "SOLVE", "BASIS", "ARR", "ONED", "ABF", "DEGEN"};
       if (getenv("C16_VERBOSE")) r.count(std::string("ms_") + pn[it.phase], (long) ((now() - tp0) * 1000));
     }
     r.count("local_distinct_states", (long) tmp.distinct["states"].size());
@@ -1337,11 +1377,11 @@ int main(int argc, char **argv)
   if (use_shm) { std::string cmd = "rm -rf " + shm; if (system(cmd.c_str()) != 0) fprintf(stderr, "could not remove %s\n", shm.c_str()); }
   if (!ok) return 2;
   if (getenv("C16_VERBOSE")) total.notes.push_back("harness wall time " + std::to_string((long) (now() - t0)) + " s on " + std::to_string(args.jobs) + " workers");
-  long by_phase[6] = {0, 0, 0, 0, 0, 0};
+  long by_phase[7] = {0, 0, 0, 0, 0, 0, 0};
   for (Item const &it : items) by_phase[it.phase]++;
   total.notes.push_back("work items: CONV " + std::to_string(by_phase[P_CONV]) + ", SOLVE shapes " + std::to_string(by_phase[P_SOLVE]) + ", BASIS shapes " + std::to_string(by_phase[P_BASIS]) +
                         ", ARR (shape x smoothing) " + std::to_string(by_phase[P_ARR]) + ", ONED (n x periodic x width x variant) " + std::to_string(by_phase[P_ONED]) +
-                        ", ABF (configuration x first symbol) " + std::to_string(by_phase[P_ABF]));
+                        ", ABF (configuration x first symbol) " + std::to_string(by_phase[P_ABF]) + ", DEGEN (shapes with a one-bin periodic dimension) " + std::to_string(by_phase[P_DEGEN]));
   total.notes.push_back("1-D smoothed+periodic integrate() is counted, not judged: b_smoothed is never set by any caller in src/, and integrate() removes the UNsmoothed mean there");
   if (total.counters["evaluations"] == 0) { fprintf(stderr, "HARNESS-ERROR: nothing was evaluated\n"); return 2; }
   fprintf(stderr, "C16 %s: %ld evaluations, %ld transitions, %ld states, %ld nontrivial, %zu violation signatures, %.1f s\n", args.tier.c_str(),
